@@ -550,9 +550,9 @@ def run(ctx):
         lengths = [n for i, n in enumerate(all_lengths) if i % ctx.nworkers == ctx.worker % len(all_lengths)] \
             if ctx.worker < len(all_lengths) else []
     exhaustive(ctx, lengths)
-    overlapping_exon_cases(ctx, ctx.quota(1500, 200000))
+    overlapping_exon_cases(ctx, ctx.quota(3000, 200000))
     rng = ctx.rng("random")
-    for i in ctx.cases(ctx.quota(4000, 1500000)):
+    for i in ctx.cases(ctx.quota(10000, 1500000)):
         case = gen_random_case(rng)
         ok, _ = ctx.guard("harness-or-crash", case, _run_random_case, ctx, case)
     if ctx.exhaustive is None and ctx.tier == "thorough":
